@@ -11,7 +11,7 @@ ASSUMPTIONS = ['worlds are enumerated: bases of <= 6 atoms (incl. query atoms ou
 TRUSTED = ["z3 'unsat' for the world-level c-representation system (sat answers are re-checked in pure Python)"]
 FLOOR = {'quick': 200, 'thorough': 2000}
 BUDGET = {'quick': 90, 'thorough': 1200}
-N = {'quick': 500, 'thorough': 8000}
+N = {'quick': 1200, 'thorough': 15000}
 FAMILIES = []
 selftest = opcommon.selftest_birds
 
